@@ -26,6 +26,10 @@ func runC20(c *an.Ctx) {
 	r20d(c)
 	r20e(c)
 	r20f(c)
+	// round 7
+	passThrough(c, "R20i", "cacheproxy: component configuration lookups are plain pass-throughs to the wrapped service", []string{"ResolveComponentQuery", "GetComponentConfiguration", "GetComponentConfigurationWithLastIndex", "GetAndProcessComponentConfiguration"}, "an answer kept by the proxy outlives the entry it names: after the entry is removed or a more specific one is added, the query still resolves to the remembered path")
+	r20g(c)
+	r20h(c)
 }
 
 const cfgPkg = "configuration/componentcfg"
